@@ -27,6 +27,23 @@ def parseSession (j : Json) : Except String Session := do
 
 def kidJ (c : Kid) : Json := Json.arr #[toJson c.dir, toJson c.n, toJson c.shards]
 
+/-- all non-empty prefixes of the directories the sessions write into: the only places where the model ever creates a
+list document (`Post.existNew`) -/
+def touchedDirs (sessions : List Session) : List Dir :=
+  (sessions.flatMap (fun se => se.flatMap (fun w => (List.range (w.1.length + 1)).map (fun k => w.1.take k)))).eraseDups
+
+/-- a store given by a table (an evaluation device of the driver: the model's store is a chain of function updates whose
+look-ups get slower with every session; after each session the store is tabulated over the touched directories) -/
+def ofTable (tbl : List (Dir × Option SList)) : FS := fun x => (tbl.lookup x).join
+
+def runSessions (H : SList → Nat) (fuel : Nat) (sessions : List Session) : DS :=
+  let ds := touchedDirs sessions
+  sessions.foldl (fun acc se =>
+      let r := session H fuel acc se
+      let tbl := ds.map (fun d => (d, r.fs d))
+      { r with fs := ofTable tbl })
+    { fs := fun _ => none, splits := fun _ => none }
+
 /-- `{"m":"tree","fuel":f,"sessions":[ [[dir,[[file,n],…]],…], … ],"dirs":[dir,…]}` →
 split infos, the list documents at the requested directories, and the enumeration per split -/
 def tree (j : Json) : Except String Json := do
@@ -35,8 +52,7 @@ def tree (j : Json) : Except String Json := do
   let sessions ← ssJ.toList.mapM parseSession
   let dirsJ ← getArr j "dirs"
   let dirs ← dirsJ.toList.mapM parseDir
-  let ds0 : DS := { fs := fun _ => none, splits := fun _ => none }
-  let ds := sessions.foldl (session Hdrv fuel) ds0
+  let ds := runSessions Hdrv fuel sessions
   let splitJ (s : Nat) : Json := match ds.splits s with
     | none => Json.null
     | some k => kidJ k
@@ -62,8 +78,7 @@ def checkJ (j : Json) : Except String Json := do
   let ssJ ← getArr j "sessions"
   let sessions0 ← ssJ.toList.mapM parseSession
   let sessions : List Session := sessions0.map (fun se => se.map (fun w => (w.1, w.2.map (fun s => { s with hash := 1000 + s.file }))))
-  let ds0 : DS := { fs := fun _ => none, splits := fun _ => none }
-  let ds := sessions.foldl (session Hdrv fuel) ds0
+  let ds := runSessions Hdrv fuel sessions
   let infos := [0, 1, 2].filterMap ds.splits
   let files0 : Files := fun d f => match ds.fs d with
     | some l => if l.files.any (·.file == f) then some (1000 + f) else none
